@@ -9,6 +9,7 @@ from vlib import harness
 
 ID = "C04"
 LEVEL = "exploration"
+ENGINE = "vkernel+sched"
 TECHNIQUE = "runtime monitor: cache reference model (object identity) over generated process-table histories; bounded-preemption schedules of two concurrent iterators"
 RULE = ("one case = a history over a simulated process table (pids + hidden thread ids) of table changes, pids(), pid_exists(n) "
         "for n in listed/thread-id/absent/{0,-1,-2**70,2**31-1,2**31,2**32+5,2**63,2**64,10**30}, process_iter() fully or partly "
